@@ -264,7 +264,17 @@ func SiblingCheck(c *Ctx, p *Program, rule string, famPatterns []string, nameFil
 					c.Ob(rule, m.pkg, m.pkg+"."+m.key, con, p.Pos(m.fn.Pos()), false, msg)
 				}
 			}
-			decide("operations", func(m *siblingMember) map[string]bool { return m.vocab }, true, nil)
+			decide("operations", func(m *siblingMember) map[string]bool { return m.vocab }, true, func(m *siblingMember, key string) bool {
+				// an exponentiation by a small known exponent is interchangeable with the
+				// multiplications it stands for
+				if strings.HasSuffix(key, ".Exp") {
+					base := strings.TrimSuffix(key, ".Exp")
+					if m.vocab[base+".Mul"] || m.vocab[base+".Square"] {
+						return false
+					}
+				}
+				return true
+			})
 			// written operands are named by position: an unexported helper whose signature was
 			// changed (with its callers) in one package is not comparable on this facet
 			decide("effects", func(m *siblingMember) map[string]bool { return m.mods }, false, func(m *siblingMember, key string) bool {
@@ -364,6 +374,13 @@ func vocabOf(fn *ssa.Function, opaque func(callee *ssa.Function) bool) map[strin
 					}
 					if _, ok := cc.Value.(*ssa.Builtin); ok {
 						continue
+					}
+					// a function literal without captured variables handed to a callee
+					// (once.Do(func() {...})) is a plain function value, not a MakeClosure
+					for _, a := range cc.Args {
+						if lit, ok := a.(*ssa.Function); ok && lit.Parent() == f {
+							visit(lit, depth+1)
+						}
 					}
 					callee := cc.StaticCallee()
 					if callee == nil {
